@@ -72,6 +72,9 @@ def dictGet (d : List (List Char × List Char)) (k : List Char) : Except PyExc (
   | some e => pure e.2
   | none => throw .keyError
 
+/-- `k in d` -/
+def dictHas (d : List (List Char × List Char)) (k : List Char) : Bool := (d.find? fun e => e.1 == k).isSome
+
 /-- `best = None; for k in d: if cond(k): best = k; break` -/
 def findFirst (d : List (List Char × List Char)) (cond : List Char → Bool) : Option (List Char) :=
   (d.find? fun e => cond e.1).map (·.1)
